@@ -86,6 +86,9 @@ func init() {
 	regHarness("vInt64", func(m *Machine, fr *frame, a []Value) Value {
 		return m.symBV(m.argStr(a[0], "vInt64 name"), 64)
 	})
+	regHarness("vDuration", func(m *Machine, fr *frame, a []Value) Value {
+		return m.symBV(m.argStr(a[0], "vDuration name"), 64)
+	})
 	regHarness("vUint32", func(m *Machine, fr *frame, a []Value) Value {
 		return m.symBV(m.argStr(a[0], "vUint32 name"), 32)
 	})
